@@ -190,6 +190,13 @@ return ((got, got2), ([('a.name', 1), ('a.name2', 3), ('a.zz', 4)], 'parsing err
 
 def _direct_map_obl(timeout):
     body = indent('''
+# the oracle is evaluated BEFORE the implementation touches `extra` (CrossHair's regex model was seen to perturb later membership tests)
+LETTERS = 'abcdefghijklmnopqrstuvwxyzABCDEFGHIJKLMNOPQRSTUVWXYZ_'
+ok_ident = len(extra) > 0 and extra[0] in LETTERS
+for c in extra:
+    if c not in LETTERS + '0123456789':
+        ok_ident = False
+exp = [('_c', 2), ('alpha', 0), ('b_2', 1)] if ok_ident else 'io error'
 m = dict()
 names = ['alpha', 'b_2', '_c']
 try:
@@ -197,8 +204,6 @@ try:
     got = [(k, m[k].index if k in m else None) for k in ('_c', 'alpha', 'b_2')]
 except rbql_engine.RbqlIOHandlingError:
     got = 'io error'
-ok_ident = len(extra) > 0 and (extra[0] == '_' or ('a' <= extra[0] <= 'z') or ('A' <= extra[0] <= 'Z')) and all((c == '_' or ('a' <= c <= 'z') or ('A' <= c <= 'Z') or ('0' <= c <= '9')) for c in extra)
-exp = [('_c', 2), ('alpha', 0), ('b_2', 1)] if ok_ident else 'io error'
 return (got, exp)
 ''')
     src = harness('', [('extra', 'str')], ['len(extra) <= 2', 'chr(10) not in extra', "extra != '_c'"], body)
